@@ -2,7 +2,11 @@ module zvharness
 
 go 1.23
 
-require github.com/zenon-network/go-zenon v0.0.0
+require (
+	github.com/tyler-smith/go-bip39 v1.1.0
+	github.com/zenon-network/go-zenon v0.0.0
+	golang.org/x/crypto v0.1.0
+)
 
 require (
 	github.com/btcsuite/btcd/btcutil v1.1.3 // indirect
@@ -23,8 +27,6 @@ require (
 	github.com/syndtr/goleveldb v1.0.1-0.20210819022825-2ae1ddf74ef7 // indirect
 	github.com/tklauser/go-sysconf v0.3.10 // indirect
 	github.com/tklauser/numcpus v0.4.0 // indirect
-	github.com/tyler-smith/go-bip39 v1.1.0 // indirect
-	golang.org/x/crypto v0.1.0 // indirect
 	golang.org/x/sync v0.0.0-20210220032951-036812b2e83c // indirect
 	golang.org/x/sys v0.1.0 // indirect
 	google.golang.org/protobuf v1.27.1 // indirect
